@@ -150,7 +150,7 @@ fn perturb(v: &RVal, p: &Pert) -> (RVal, &'static str) {
                 *node = RVal::XStr("Sym".into(), s.clone());
                 label = "kind:symbol->xstr";
             }
-            RVal::XStr(t, _) => {
+            RVal::XStr(t, _) if op % 4 == 0 => {
                 t.push('x');
                 label = "xstr:type-changed";
             }
@@ -180,6 +180,27 @@ fn perturb(v: &RVal, p: &Pert) -> (RVal, &'static str) {
                     label = "datetime:+1s-other-zone";
                 } else {
                     label = "datetime:same-instant-other-zone";
+                }
+            }
+            RVal::XStr(t, val) => {
+                match op % 3 {
+                    0 => {
+                        // the same type name but for the case of its first letter
+                        let mut c = t.chars();
+                        if let Some(f) = c.next() {
+                            let flipped: String = if f.is_uppercase() { f.to_lowercase().collect() } else { f.to_uppercase().collect() };
+                            *t = format!("{flipped}{}", c.as_str());
+                        }
+                        label = "xstr:type-first-letter-case";
+                    }
+                    1 => {
+                        val.push('x');
+                        label = "xstr:value";
+                    }
+                    _ => {
+                        *node = RVal::Str(val.clone());
+                        label = "kind:xstr->str";
+                    }
                 }
             }
             RVal::Date(y, m, d) => {
@@ -269,6 +290,11 @@ fn small_record() -> BoxedStrategy<RVal> {
         2 => prop::sample::select(vec!["x", "y", ""]).prop_map(|s| RVal::Str(s.to_string())),
         2 => prop::sample::select(vec![0.0f64, 1.0, 2.0]).prop_map(RVal::num),
         1 => Just(RVal::Num(1f64.to_bits(), Some(vec!["meter".into(), "m".into()]))),
+        // quantities whose magnitudes and whose sizes are ordered differently (1 km, 600 m, 500 s, 700 of nothing)
+        3 => (prop::sample::select(vec![1.0f64, 600.0, 500.0, 700.0, 0.5, 1000.0, 30.0, 2000.0]), prop::sample::select(vec!["kilometer", "meter", "second", "", "hour", "minute", "fahrenheit", "celsius"])).prop_map(|(x, u)| {
+            let unit = crate::refimpl::units::lookup(u).map(|d| d.ids.clone());
+            RVal::Num(x.to_bits(), unit)
+        }),
         1 => Just(RVal::Bool(true)),
     ];
     let name = prop::sample::select(vec!["id", "dis", "equip", "navName", "a", "site", "siteRef", "def", "z"]).prop_map(String::from);
